@@ -44,6 +44,8 @@ def check_model(rep, drv, gen, rng, m, text, c):
         except impl.SkeletonError as ex:
             bad.append((ru, "skeleton", str(ex)))
             continue
+        pipeline.check_instance(rep, v1, text, "rhs")
+        pipeline.check_instance(rep, v2, text, "euler")
         if not v1.get("valid"):
             bad.append((ru, "rhs", v1))
         if not v2.get("valid"):
